@@ -102,7 +102,7 @@ Proof. unfold set_path. rewrite unescape_escape, streqb_refl. reflexivity. Qed.
 (* a URL without RawPath (e.g. one built by URI()) is read back unchanged *)
 Theorem reparse_fresh sch h p pl : p <> "*" -> reparse (Url sch h p "" pl) = Url sch h p "" pl.
 Proof.
-  intros Hne. unfold reparse, escaped_path. cbn [u_raw u_path u_scheme u_host u_plain nonempty].
+  intros Hne. unfold reparse, escaped_path. cbn [u_raw u_path u_scheme u_host u_deco nonempty].
   change (nonempty "") with false. cbn [andb].
   destruct (p =? "*")%string eqn:E; [apply String.eqb_eq in E; contradiction|].
   rewrite set_path_escape. reflexivity.
@@ -114,7 +114,7 @@ Theorem reparse_raw sch h p r pl :
   r <> "" -> unescape r = Some p -> r <> escape_path p -> p <> "*" ->
   reparse (Url sch h p r pl) = if valid_encoded r then Url sch h p r pl else Url sch h p "" pl.
 Proof.
-  intros Hr Hu Hne Hstar. unfold reparse, escaped_path. cbn [u_raw u_path u_scheme u_host u_plain].
+  intros Hr Hu Hne Hstar. unfold reparse, escaped_path. cbn [u_raw u_path u_scheme u_host u_deco].
   assert (Hn : nonempty r = true).
   { unfold nonempty. destruct (r =? "")%string eqn:E; [apply String.eqb_eq in E; contradiction | reflexivity]. }
   rewrite Hn, Hu, streqb_refl. cbn [andb]. destruct (valid_encoded r) eqn:V; cbn [andb].
